@@ -6,6 +6,7 @@
 
 using namespace vf;
 
+static int g_maxM = 1000000;
 static int g_maxN = 14;
 static Verdict F(const std::string &key, const std::string &msg) { return Verdict::fail(key, msg); }
 
@@ -107,6 +108,7 @@ static Case gen_approx(bool allow_zero) {
     c.wtype = coin(30) ? "int" : "double";
     GenOpts o;
     o.maxN = g_maxN;
+    o.maxM = g_maxM;
     c.g = gen_graph_raw(o, c.wtype == "int" ? WDom::ExactInt : WDom::Exact);
     c.k = gen_k(allow_zero);
     return c;
@@ -186,6 +188,7 @@ static Case gen_c15() {
     c.wtype = coin(30) ? "int" : "double";
     GenOpts o;
     o.maxN = g_maxN;
+    o.maxM = g_maxM;
     o.tie_bias = 75;
     c.g = gen_graph_raw(o, c.wtype == "int" ? WDom::ExactInt : WDom::Exact);
     c.k = coin(85) ? pick(1, 4) : pick(5, 8);
@@ -294,6 +297,7 @@ static Verdict check_c15(const Case &c) { return c.wtype == "int" ? check_c15_t<
 
 int main(int argc, char **argv) {
     if (getenv("VERIF_MAXN")) g_maxN = atoi(getenv("VERIF_MAXN"));
+    if (getenv("VERIF_MAXM")) g_maxM = atoi(getenv("VERIF_MAXM"));
     std::map<std::string, Prop> props;
     props["C05"] = Prop{gen_c05, check_c05};
     props["C07A"] = Prop{gen_c07a, check_c05};
